@@ -1056,7 +1056,12 @@ where
         // Partial transfer of the delivery
         match &mut self.incomplete_transfer {
             Some(incomplete) => {
-                incomplete.or_assign(transfer)?;
+                if let Err(err) = incomplete.or_assign(transfer) {
+                    // The partial delivery is discarded so that no later frame can be appended
+                    // to it
+                    self.incomplete_transfer = None;
+                    return Err(err.into());
+                }
                 incomplete.append(payload);
 
                 if let Some(delivery_tag) = incomplete.performative.delivery_tag.clone() {
